@@ -179,7 +179,18 @@ SUBMODULES = [
 ]
 # noinspection PyDictCreation
 FUNCTIONS = {}
-FUNCTIONS['ARRAY'] = lambda *args: np.asarray(args, object).view(Array)
+
+
+def _array(*args):
+    # An element computed by an operator (e.g. the -3 of {-3,4}) is a 0-d array.
+    args = [
+        a[()] if isinstance(a, np.ndarray) and a.shape == () else a
+        for a in args
+    ]
+    return np.asarray(args, object).view(Array)
+
+
+FUNCTIONS['ARRAY'] = _array
 FUNCTIONS['ARRAYROW'] = lambda *args: np.asarray(args, object).view(Array)
 
 
